@@ -213,7 +213,12 @@ def c_from_bytes(eng, st, fr, f, args, site):
     of one sequence compose to the multi-byte read of that sequence)."""
     a = force(eng, st, args[0])
     rt = ret_ty(eng, site)
-    ii = eng.T.int_info(rt) if rt is not None else None
+    ii = eng.T.int_info(rt) if rt is not None and eng.T.t(rt)["k"] in ("uint", "int") else None
+    if ii is None:
+        # applied as a function value (`opt.map(u16::from_be_bytes)`): the type is the impl's
+        m_ = re.search(r"<impl ([ui])(\d+|size)>::from_[bl]e_bytes$", f["path"]) or re.search(r"<impl ([ui])(\d+|size)>::from_[bl]e_bytes$", f.get("resolved") or "")
+        if m_:
+            ii = (64 if m_.group(2) == "size" else int(m_.group(2)), m_.group(1) == "i")
     if not isinstance(a, Arr) or not ii or len(a.elems) * 8 != ii[0]:
         return None
     be = f["path"].endswith("from_be_bytes")
